@@ -1,4 +1,4 @@
-From Plotink Require Import Base.Prelude Spec.Firmware Model.EbbCalc.
+From Plotink Require Import Base.Prelude Base.Rnd Spec.Firmware Model.EbbCalc Model.EbbCalcRnd.
 Open Scope Z_scope.
 
 (* O(1) closed form of the recurrence (proved equal to lt_spec in Proofs/EbbCalcProofs.v: lt_closed_spec) *)
@@ -17,7 +17,9 @@ Definition check01 (c : case01) : Z :=
       if e =? 2 then
         code_of (negb (moveDistLM rate accel T =? ipos)) (negb (fst (lt_closed rate accel T (Some 0)) =? ipos))
       else
-        code_of (negb (pair_eqb (move_dist_lt rate accel T acc) (ipos, iacc)))
+        (* bit 0: the output differs from the exact model or from the model with every mpmath operation rounded to nearest-even at 103 bits
+           (Model/EbbCalcRnd.v, executed; equal to the exact model on the domain by C01_rounding_exact_rne) *)
+        code_of (negb (pair_eqb (move_dist_lt rate accel T acc) (ipos, iacc) && pair_eqb (move_dist_lt_r (round_ne 103) rate accel T acc) (ipos, iacc)))
                 (negb (pair_eqb (lt_closed rate accel T acc) (ipos, iacc)))
   end.
 Definition run01 (cs : list case01) := report (map check01 cs).
